@@ -13,6 +13,7 @@ Definition reviewed_decorator : string := "jit(nopython=True, cache=True)".
 Definition mem (a : string) (l : list string) : bool := existsb (String.eqb a) l.
 
 Definition stateless_ok : bool :=
+  match loess_module_data_used with [] => true | _ => false end &&
   match loess_self_writes with [] => true | _ => false end &&
   match polynomial_class_state with [] => true | _ => false end &&
   match polynomial_module_state with [] => true | _ => false end &&
@@ -21,7 +22,7 @@ Definition stateless_ok : bool :=
   forallb (fun p => forallb (String.eqb reviewed_decorator) (snd p)) loess_strategy_functions.
 
 Lemma stateless_sound : stateless_ok = true ->
-  loess_self_writes = [] /\ polynomial_class_state = [] /\ polynomial_module_state = [] /\
+  loess_module_data_used = [] /\ loess_self_writes = [] /\ polynomial_class_state = [] /\ polynomial_module_state = [] /\
   (forall a, In a loess_self_reads -> In a reviewed_reads) /\
   (forall a, In a loess_self_calls -> In a reviewed_calls) /\
   (forall f d, In (f, d) loess_strategy_functions -> forall e, In e d -> e = reviewed_decorator).
@@ -31,6 +32,7 @@ Proof.
   assert (Hmem : forall a l, mem a l = true -> In a l).
   { intros a l Hm. unfold mem in Hm. apply existsb_exists in Hm. destruct Hm as (b & Hb & E).
     apply String.eqb_eq in E. subst; exact Hb. }
+  split; [destruct loess_module_data_used; [reflexivity|discriminate]|].
   split; [destruct loess_self_writes; [reflexivity|discriminate]|].
   split; [destruct polynomial_class_state; [reflexivity|discriminate]|].
   split; [destruct polynomial_module_state; [reflexivity|discriminate]|].
@@ -41,7 +43,7 @@ Proof.
 Qed.
 
 Lemma driver_stateless :
-  loess_self_writes = [] /\ polynomial_class_state = [] /\ polynomial_module_state = [] /\
+  loess_module_data_used = [] /\ loess_self_writes = [] /\ polynomial_class_state = [] /\ polynomial_module_state = [] /\
   (forall a, In a loess_self_reads -> In a reviewed_reads) /\
   (forall a, In a loess_self_calls -> In a reviewed_calls) /\
   (forall f d, In (f, d) loess_strategy_functions -> forall e, In e d -> e = reviewed_decorator).
